@@ -223,6 +223,13 @@ def finish(pid, mod, tier, seed, all_cases, records, incon, wall):
                            "detail": v.get("detail"), "case": case, "same_signature_cases": len(vs)}, f, indent=1, default=str)
             replay_paths.append((sig, path, v.get("what")))
 
+    extra = {}
+    if hasattr(mod, "extra_coverage"):
+        try:
+            extra = mod.extra_coverage(tier, counters) or {}
+        except Exception as e:  # pragma: no cover
+            extra = {"extra_coverage_error": repr(e)}
+
     # minimum monitor counts
     short = []
     mins = dict(getattr(mod, "MIN_COUNTS", {}))
@@ -256,11 +263,7 @@ def finish(pid, mod, tier, seed, all_cases, records, incon, wall):
         "minimum_counts": mins,
         "exhaustive": bool(getattr(mod, "EXHAUSTIVE", {}).get(tier, False)) if isinstance(getattr(mod, "EXHAUSTIVE", None), dict) else False,
     }
-    if hasattr(mod, "extra_coverage"):
-        try:
-            coverage.update(mod.extra_coverage(tier, counters))
-        except Exception as e:  # pragma: no cover
-            coverage["extra_coverage_error"] = repr(e)
+    coverage.update(extra)
     ev = {
         "property_id": pid, "tier": tier, "seed": seed, "level": mod.LEVEL,
         "coverage": coverage, "assumptions": list(mod.ASSUMPTIONS),
